@@ -34,7 +34,7 @@ def run(tier, replay=None):
     cap = 3 if tier == "quick" else 10
     schemas = shapes.catalogue(tier, "littleEndian")
     if tier != "quick":
-        schemas += shapes.catalogue(tier, "bigEndian")
+        schemas += shapes.catalogue("quick", "bigEndian")
     rep.set("bounds", {"shapes": "catalogue families A and B", "size_vectors": "ladder <= %d per message" % cap,
                        "truncation": "every n in 0..len, plus len+1 and len+9 (trailing junk)",
                        "corruption": "every blockLength / numInGroup / data length instance at every nesting level and entry overwritten with 0, 1, fit-1, fit+1, max/2+1, max-1, max (one at a time%s)" % ("; also combined with n in {len-1, len, len+9}" if tier != "quick" else ""),
